@@ -89,6 +89,15 @@ type patch11 struct {
 	Value      string `json:"value"`
 }
 
+// cfg11: one `configurations:` file adding a nameReference rule
+// (target kind <- referrer kind at path), written next to the kustomization file
+type cfg11 struct {
+	File       string `json:"file"`
+	TargetKind string `json:"target_kind"`
+	RefKind    string `json:"ref_kind"`
+	Path       string `json:"path"`
+}
+
 type image11 struct {
 	Name   string `json:"name"`
 	NewTag string `json:"new_tag"`
@@ -113,6 +122,8 @@ type dir11 struct {
 	Labels2      map[string]string `json:"labels2,omitempty"` // a second entry of the labels: list
 	Annotations  map[string]string `json:"annotations,omitempty"`
 	CMGens       []cmgen11         `json:"cmgens,omitempty"`
+	SecGens      []cmgen11         `json:"secgens,omitempty"`
+	Configs      []cfg11           `json:"configs,omitempty"`
 	Patches      []patch11         `json:"patches,omitempty"`
 	Images       []image11         `json:"images,omitempty"`
 	// top-only
@@ -123,12 +134,13 @@ type dir11 struct {
 // Kustomization.CheckEmpty rejects it once those move to a wrapper.
 func (d *dir11) emptyWithoutTopOnly() bool {
 	return len(d.Ents) == 0 && d.Prefix == "" && d.Suffix == "" && d.Namespace == "" && len(d.CommonLabels) == 0 &&
-		len(d.Labels) == 0 && len(d.Labels2) == 0 && len(d.Annotations) == 0 && len(d.CMGens) == 0 && len(d.Patches) == 0 && len(d.Images) == 0
+		len(d.Labels) == 0 && len(d.Labels2) == 0 && len(d.Annotations) == 0 && len(d.CMGens) == 0 && len(d.Patches) == 0 && len(d.Images) == 0 &&
+		len(d.SecGens) == 0 && len(d.Configs) == 0
 }
 
 func (d *dir11) rich() bool {
 	if d.Namespace != "" || len(d.CommonLabels) > 0 || len(d.Labels) > 0 || len(d.Labels2) > 0 || len(d.Annotations) > 0 ||
-		len(d.CMGens) > 0 || len(d.Patches) > 0 || len(d.Images) > 0 {
+		len(d.CMGens) > 0 || len(d.Patches) > 0 || len(d.Images) > 0 || len(d.SecGens) > 0 || len(d.Configs) > 0 {
 		return true
 	}
 	for _, e := range d.Ents {
@@ -276,6 +288,21 @@ func (d *dir11) kustomization() string {
 			}
 		}
 	}
+	if len(d.SecGens) > 0 {
+		b.WriteString("secretGenerator:\n")
+		for _, g := range d.SecGens {
+			fmt.Fprintf(&b, "- name: %s\n  literals:\n", g.Name)
+			for _, l := range g.Literals {
+				fmt.Fprintf(&b, "  - %s\n", l)
+			}
+		}
+	}
+	if len(d.Configs) > 0 {
+		b.WriteString("configurations:\n")
+		for _, c := range d.Configs {
+			fmt.Fprintf(&b, "- %s\n", c.File)
+		}
+	}
 	if len(d.Patches) > 0 {
 		b.WriteString("patches:\n")
 		for _, p := range d.Patches {
@@ -313,6 +340,12 @@ func (d *dir11) materialize(fs filesys.FileSystem, root string) error {
 	}
 	if err := fs.WriteFile(path.Join(root, "kustomization.yaml"), []byte(d.kustomization())); err != nil {
 		return err
+	}
+	for _, c := range d.Configs {
+		txt := fmt.Sprintf("nameReference:\n- kind: %s\n  fieldSpecs:\n  - kind: %s\n    path: %s\n", c.TargetKind, c.RefKind, c.Path)
+		if err := fs.WriteFile(path.Join(root, c.File), []byte(txt)); err != nil {
+			return err
+		}
 	}
 	for _, e := range d.Ents {
 		if e.File != nil {
@@ -743,6 +776,125 @@ func labelCase11(r *Run, t *dir11, root string) {
 	r.Count("labels_layers", fmt.Sprint(len(t.dirs(nil))))
 	term := fmt.Sprintf("(CLabels %s [%s])", t.coqL(), strings.Join(out, "; "))
 	r.AddCase(term, treeCase11{Kind: "labeltree", Tree: t, Note: "built at " + root}, overridden)
+}
+
+// genNamerefTree11: sibling bases (or an inner and an outer layer) whose `configurations:` each add a
+// nameReference rule for the SAME referrer field but DIFFERENT target kinds, a referrer whose field holds the
+// original name of a target of both kinds, and two targets that end up with different final names. The order in
+// which the rule tables are merged follows the resources list; the build must not.
+func genNamerefTree11(rng *Rng) *dir11 {
+	place := func(d *dir11) *dir11 {
+		switch rng.Intn(4) {
+		case 0:
+			d.Sibling = true
+		case 1:
+			d.Place = "aux"
+		case 2:
+			d.Place = "dot"
+		}
+		return d
+	}
+	kinds := [2]string{"Secret", "ConfigMap"}
+	if rng.Bool() {
+		kinds[0], kinds[1] = kinds[1], kinds[0]
+	}
+	refDoc := doc11{API: "example.com/v1", Kind: "MyApp", Name: "app", Marker: "ref",
+		Body: "spec:\n  ref:\n    name: x\n"}
+	other := doc11{API: "v1", Kind: "Service", Name: "web", Marker: "svc", Body: "spec:\n  ports:\n  - port: 80\n"}
+	a := place(&dir11{Name: "a", Configs: []cfg11{{File: "refs.yaml", TargetKind: kinds[0], RefKind: "MyApp", Path: "spec/ref/name"}}})
+	b := place(&dir11{Name: "b", Configs: []cfg11{{File: "refs.yaml", TargetKind: kinds[1], RefKind: "MyApp", Path: "spec/ref/name"}}})
+	top := &dir11{Name: "top"}
+	// where the referrer lives
+	docsA, docsB, docsTop := []doc11{}, []doc11{other}, []doc11{}
+	switch rng.Intn(3) {
+	case 0:
+		docsA = append(docsA, refDoc)
+	case 1:
+		docsB = append(docsB, refDoc)
+	default:
+		docsTop = append(docsTop, refDoc)
+		docsA = append(docsA, doc11{API: "v1", Kind: "ServiceAccount", Name: "sa", Marker: "sa"})
+	}
+	a.Ents = []ent11{{File: &file11{Name: "ra.yaml", Docs: docsA}}}
+	b.Ents = []ent11{{File: &file11{Name: "rb.yaml", Docs: docsB}}}
+	// the two targets: generated at the top (hash suffixes differ), or file resources renamed by their bases
+	if rng.Chance(60) {
+		top.CMGens = []cmgen11{{Name: "x", Literals: []string{"kind=configmap"}}}
+		top.SecGens = []cmgen11{{Name: "x", Literals: []string{"kind=secret"}}}
+	} else {
+		c1 := place(&dir11{Name: "c1", Prefix: "c-", Ents: []ent11{{File: &file11{Name: "cm.yaml",
+			Docs: []doc11{{API: "v1", Kind: "ConfigMap", Name: "x", Marker: "cm", Body: "data:\n  k: v\n"}}}}}})
+		c2 := place(&dir11{Name: "c2", Suffix: "-s", Ents: []ent11{{File: &file11{Name: "sec.yaml",
+			Docs: []doc11{{API: "v1", Kind: "Secret", Name: "x", Marker: "sec", Body: "stringData:\n  k: v\n"}}}}}})
+		top.Ents = append(top.Ents, ent11{Dir: c1}, ent11{Dir: c2})
+	}
+	if rng.Chance(25) {
+		// inner / outer instead of siblings: b wraps a
+		b.Ents = append([]ent11{{Dir: a}}, b.Ents...)
+		top.Ents = append(top.Ents, ent11{Dir: b})
+	} else {
+		top.Ents = append(top.Ents, ent11{Dir: a}, ent11{Dir: b})
+	}
+	if len(docsTop) > 0 {
+		top.Ents = append(top.Ents, ent11{File: &file11{Name: "rt.yaml", Docs: docsTop}})
+	}
+	// shuffle the top list: the generated order is one of the permutations under test
+	for i := len(top.Ents) - 1; i > 0; i-- {
+		j := rng.Intn(i + 1)
+		top.Ents[i], top.Ents[j] = top.Ents[j], top.Ents[i]
+	}
+	if rng.Chance(60) {
+		top.Sort = &sort11{Order: "legacy"}
+	} else if rng.Chance(30) {
+		top.Sort = &sort11{Order: "fifo"}
+	}
+	if rng.Chance(30) {
+		top.Prefix = "t-"
+	}
+	return top
+}
+
+// genTwinTree11: the same group/kind in two API versions, spread over one resources list and sibling bases,
+// under the legacy order: the version is the only thing that orders them.
+var c11Twins = [][3]string{
+	{"autoscaling/v1", "autoscaling/v2", "HorizontalPodAutoscaler"},
+	{"batch/v1beta1", "batch/v1", "CronJob"},
+	{"example.com/v1", "example.com/v2", "Foo"},
+	{"example.com/v1alpha1", "example.com/v1", "Widget"},
+	{"networking.k8s.io/v1beta1", "networking.k8s.io/v1", "Ingress"},
+	{"v1", "v2", "Thing"},
+}
+
+func genTwinTree11(rng *Rng) *dir11 {
+	tw := c11Twins[rng.Intn(len(c11Twins))]
+	top := &dir11{Name: "top", Sort: &sort11{Order: "legacy"}}
+	if rng.Chance(20) {
+		top.Sort = &sort11{Order: "legacy", Custom: true, First: []string{"Namespace", tw[2]}, Last: []string{"Secret"}}
+	}
+	n := 2 + rng.Intn(3)
+	for i := 0; i < n; i++ {
+		d := doc11{API: tw[i%2], Kind: tw[2], Name: rng.Pick([]string{"a", "a", "b"}), NS: rng.Pick([]string{"", "", "ns1"})}
+		if i >= 2 {
+			d.Name = fmt.Sprintf("%s%d", d.Name, i) // a third / fourth twin must not collide with the first pair
+		}
+		f := &file11{Name: fmt.Sprintf("f%d.yaml", i), Docs: []doc11{d}}
+		if rng.Chance(25) {
+			f.Docs = append(f.Docs, doc11{API: "v1", Kind: "ConfigMap", Name: fmt.Sprintf("c%d", i)})
+		}
+		if rng.Chance(40) {
+			b := &dir11{Name: fmt.Sprintf("b%d", i), Ents: []ent11{{File: f}}}
+			if rng.Chance(50) {
+				b.Sibling = true
+			}
+			if rng.Chance(30) {
+				b.Suffix = "-s"
+			}
+			top.Ents = append(top.Ents, ent11{Dir: b})
+		} else {
+			top.Ents = append(top.Ents, ent11{File: f})
+		}
+	}
+	return top
 }
 
 // ---- adversarial ids for the Less correspondence
@@ -1356,7 +1508,8 @@ func runC11(r *Run, rng *Rng, tier string) error {
 		"ranked/unranked kinds, Namespace kind), 60% near-equal pairs, 20% custom order lists; build: trees of 1-3 layers (nested and sibling bases), 0-4 entries per resources list, " +
 		"files of 0-3 documents over 20 kinds incl. the prefix-skip kinds and cluster-scoped kinds, names/prefixes/suffixes chosen to collide, sortOptions none/fifo/legacy/legacy-custom, " +
 		"each tree materialised at one of 5 root directories of depth 1-7; " +
-		"oracle trees additionally carry namespace, commonLabels, labels, commonAnnotations, configMapGenerator, patches, images. non-trivial = Less on different GVKs / a successful build with >=2 documents"
+		"oracle trees additionally carry namespace, commonLabels, labels, commonAnnotations, configMapGenerator, patches, images; two dedicated families: " +
+		"nameReference `configurations:` in sibling / nested bases for one referrer field and two target kinds with same-named targets, and the same group/kind in two API versions under the legacy order. non-trivial = Less on different GVKs / a successful build with >=2 documents"
 	tableCheck11(r)
 	for _, c := range loadCorpus11() {
 		runCorpus11(r, rng.Fork(), c)
@@ -1389,6 +1542,28 @@ func runC11(r *Run, rng *Rng, tier string) error {
 		b, _ := json.Marshal(t)
 		r.AddEval(string(b), true)
 	}
+	// dedicated families (every permutation of every resources list, also in the quick tier)
+	nFam := 8
+	if tier == "thorough" {
+		nFam = 150
+	}
+	stFam := &oracleStats{}
+	for i := 0; i < nFam; i++ {
+		g := rng.Fork()
+		t := genNamerefTree11(g)
+		r.Count("oracle_family", "nameref-configurations")
+		oracles11(r, g, t, stFam)
+		b, _ := json.Marshal(t)
+		r.AddEval(string(b), true)
+		g = rng.Fork()
+		t = genTwinTree11(g)
+		r.Count("oracle_family", "version-twins")
+		modelCase11(r, t, roots11[g.Intn(len(roots11))])
+		oracles11(r, g, t, stFam)
+		b, _ = json.Marshal(t)
+		r.AddEval(string(b), true)
+	}
+	st.builds += stFam.builds
 	r.Meta.Notes = append(r.Meta.Notes, fmt.Sprintf("oracle builds: %d", st.builds))
 	return nil
 }
